@@ -17,8 +17,8 @@ theorem n1F_mem (opt : Bool) (items : List Item) (lv i : Nat) (prev it : Item) (
     exact ⟨h, by omega⟩
   · simp at h
 
-theorem holdF_mem (items : List Item) (lv i : Nat) (it : Item) (p : Nat × Nat)
-    (h : p ∈ holdF items lv i it) : p = (lv, i+1) ∧ i + 1 < items.length := by
+theorem holdF_mem (opt : Bool) (items : List Item) (lv i : Nat) (prev it : Item) (p : Nat × Nat)
+    (h : p ∈ holdF opt items lv i prev it) : p = (lv, i+1) ∧ i + 1 < items.length := by
   unfold holdF at h
   split at h
   · rename_i hc
@@ -69,7 +69,7 @@ theorem nextFor_label (labels : List Lbl) (opt : Bool) (rid : Nat) (items : List
     (lv i : Nat) (S : List (Nat × Nat)) (prev : Item) (id : Nat)
     (hp : prevItem items i = some prev) (hi : items[i]? = some (.label id))
     (h : nextFor labels opt rid items g0 lv i = .ok (S, g1)) :
-    S = n1F opt items lv i prev (.label id) ++ holdF items lv i (.label id) := by
+    S = n1F opt items lv i prev (.label id) ++ holdF opt items lv i prev (.label id) := by
   rw [nextFor_some labels opt rid items g0 lv i prev _ hp hi] at h
   simp at h
   exact h.1.symm
@@ -78,7 +78,7 @@ theorem nextFor_op (labels : List Lbl) (opt : Bool) (rid : Nat) (items : List It
     (lv i : Nat) (S : List (Nat × Nat)) (prev : Item) (o : MOp)
     (hp : prevItem items i = some prev) (hi : items[i]? = some (.op o))
     (h : nextFor labels opt rid items g0 lv i = .ok (S, g1)) :
-    S = n1F opt items lv i prev (.op o) ++ holdF items lv i (.op o) := by
+    S = n1F opt items lv i prev (.op o) ++ holdF opt items lv i prev (.op o) := by
   rw [nextFor_some labels opt rid items g0 lv i prev _ hp hi] at h
   simp at h
   exact h.1.symm
@@ -89,9 +89,9 @@ theorem nextFor_ljump (labels : List Lbl) (opt : Bool) (rid : Nat) (items : List
     (h : nextFor labels opt rid items g0 lv i = .ok (S, g1)) :
     ∃ l, labels.find? (fun l => l.id == lid) = some l ∧
       (((l.rtn == rid) = true ∧ ∃ li, labelIndex items lid = some li ∧
-          S = n1F opt items lv i prev (.ljump r lid c) ++ [(lv + 1, li)] ++ holdF items lv i (.ljump r lid c)) ∨
+          S = n1F opt items lv i prev (.ljump r lid c) ++ [(lv + 1, li)] ++ holdF opt items lv i prev (.ljump r lid c)) ∨
        ((l.rtn == rid) = false ∧
-          S = n1F opt items lv i prev (.ljump r lid c) ++ [(lv + 1, g0.vs.length)] ++ holdF items lv i (.ljump r lid c) ∧
+          S = n1F opt items lv i prev (.ljump r lid c) ++ [(lv + 1, g0.vs.length)] ++ holdF opt items lv i prev (.ljump r lid c) ∧
           g1.vs = g0.vs ++ [.foreign lid])) := by
   rw [nextFor_some labels opt rid items g0 lv i prev _ hp hi] at h
   simp only at h
